@@ -500,7 +500,7 @@ package server
 //@   effects none
 //@   ensures result != nil && result.Primary != nil ==> result.PrimaryPath != ""
 //@   ensures result == wsres(s, docURI)
-//@   ensures [tree_is_parser_output] result != nil ==> (forall p string :: has(result.Files, p) ==> JRefOK(result.Files[p])) && (result.Primary != nil ==> JRefOK(result.Primary))
+//@   ensures [tree_is_parser_output] result != nil ==> (forall p string :: has(result.Files, p) ==> JRefOK(result.Files[p]) && JComOK(result.Files[p])) && (result.Primary != nil ==> JRefOK(result.Primary) && JComOK(result.Primary))
 
 //@ specfun uriPath(u protocol.DocumentURI) string
 //@ trusted uriToPath
@@ -555,6 +555,7 @@ package server
 
 //@ trusted findDefinitionTarget
 //@   effects none
+//@   ensures [commodity_named] result != nil && result.context == DefContextCommodity ==> result.name != ""
 // sortAndDedup sorts in place (sort.Slice with a comparator closure: not modelled) and keeps the first of equal neighbours.
 //@ trusted sortAndDedup
 //@   ensures len(result) <= len(locations) && (len(result) == 0 || fresh(result))
@@ -585,7 +586,31 @@ package server
 //@   loop 4 invariant JRefOK(journal) && 0 <= i && i < len(journal.Transactions) && 0 - 1 <= rangeindex && rangeindex <= len(journal.Transactions[i].Postings) - 1 && (len(locations) == 0 || fresh(locations))
 //@   loop 4 invariant len(locations) == atloop(1, len(locations)) + ite(includeDeclaration, cntDirAcc(journal.Directives, len(journal.Directives), name), 0) + cntTxAcc(journal.Transactions, i, name) + cntAcc(journal.Transactions[i].Postings, rangeindex + 1, name)
 //@   loop 4 decreases len(journal.Transactions[i].Postings) - rangeindex
-//@ trusted findCommodityReferences
+// References to a commodity: within every journal exactly the occurrences add a location - each commodity directive
+// that declares the symbol (when asked) and each posting whose amount is in it. (Costs and balance assertions are not
+// searched by the code: see undecided C09.)
+//@ pred JComOK(j) := j != nil && (forall i int, k int :: {j.Transactions[i].Postings[k]} 0 <= i && i < len(j.Transactions) && 0 <= k && k < len(j.Transactions[i].Postings) && j.Transactions[i].Postings[k].Amount != nil && j.Transactions[i].Postings[k].Amount.Commodity.Symbol != "" ==> RngOK(j.Transactions[i].Postings[k].Amount.Commodity.Range)) && (forall d int :: {j.Directives[d]} 0 <= d && d < len(j.Directives) && typeis(j.Directives[d], "ast.CommodityDirective") && as(j.Directives[d], "ast.CommodityDirective").Commodity.Symbol != "" ==> RngOK(as(j.Directives[d], "ast.CommodityDirective").Commodity.Range))
+//@ specdef cntCom(ps []ast.Posting, j int, sym string) int := ite(j <= 0, 0, cntCom(ps, j - 1, sym) + ite(ps[j - 1].Amount != nil && ps[j - 1].Amount.Commodity.Symbol == sym, 1, 0))
+//@ specdef cntTxCom(ts []ast.Transaction, i int, sym string) int := ite(i <= 0, 0, cntTxCom(ts, i - 1, sym) + cntCom(ts[i - 1].Postings, len(ts[i - 1].Postings), sym))
+//@ specdef cntDirCom(ds []ast.Directive, i int, sym string) int := ite(i <= 0, 0, cntDirCom(ds, i - 1, sym) + ite(typeis(ds[i - 1], "ast.CommodityDirective") && as(ds[i - 1], "ast.CommodityDirective").Commodity.Symbol == sym, 1, 0))
+//@ func findCommodityReferences
+//@   props C09
+//@   requires symbol != ""
+//@   requires [C09:ast_ranges] resolved != nil ==> (forall p string :: has(resolved.Files, p) ==> JComOK(resolved.Files[p])) && (resolved.Primary != nil ==> JComOK(resolved.Primary))
+//@   requires [C09:ast_ranges_current] currentJournal != nil ==> JComOK(currentJournal)
+//@   requires [C09:tree_labelled] resolved != nil && resolved.Primary != nil && resolved.PrimaryPath == "" ==> srcPath(resolved) == currentPath
+//@   loop 1 invariant 0 - 1 <= rangeindex && (forall p string :: has(journals, p) ==> JComOK(journals[p])) && (len(locations) == 0 || fresh(locations))
+//@   loop 1 invariant forall i int :: {rangeover[i]} 0 <= i && i < len(rangeover) ==> has(journals, rangeover[i])
+//@   loop 1 decreases *
+//@   loop 2 invariant JComOK(journal) && 0 - 1 <= rangeindex && rangeindex <= len(journal.Directives) - 1 && (len(locations) == 0 || fresh(locations))
+//@   loop 2 invariant [C09:declarations_counted] len(locations) == atloop(1, len(locations)) + cntDirCom(journal.Directives, rangeindex + 1, symbol)
+//@   loop 2 decreases len(journal.Directives) - rangeindex
+//@   loop 3 invariant JComOK(journal) && 0 - 1 <= rangeindex && rangeindex <= len(journal.Transactions) - 1 && (len(locations) == 0 || fresh(locations))
+//@   loop 3 invariant [C09:postings_counted] len(locations) == atloop(1, len(locations)) + ite(includeDeclaration, cntDirCom(journal.Directives, len(journal.Directives), symbol), 0) + cntTxCom(journal.Transactions, rangeindex + 1, symbol)
+//@   loop 3 decreases len(journal.Transactions) - rangeindex
+//@   loop 4 invariant JComOK(journal) && 0 <= i && i < len(journal.Transactions) && 0 - 1 <= rangeindex && rangeindex <= len(journal.Transactions[i].Postings) - 1 && (len(locations) == 0 || fresh(locations))
+//@   loop 4 invariant len(locations) == atloop(1, len(locations)) + ite(includeDeclaration, cntDirCom(journal.Directives, len(journal.Directives), symbol), 0) + cntTxCom(journal.Transactions, i, symbol) + cntCom(journal.Transactions[i].Postings, rangeindex + 1, symbol)
+//@   loop 4 decreases len(journal.Transactions[i].Postings) - rangeindex
 //@ trusted findPayeeReferences
 
 // findReferences hands the tree and the requesting document's path to the per-kind searches, which label the tree's
@@ -593,8 +618,9 @@ package server
 //@ func findReferences
 //@   props C09
 //@   requires target != nil
-//@   requires [C09:ast_ranges] resolved != nil ==> (forall p string :: has(resolved.Files, p) ==> JRefOK(resolved.Files[p])) && (resolved.Primary != nil ==> JRefOK(resolved.Primary))
-//@   requires [C09:ast_ranges_current] currentJournal != nil ==> JRefOK(currentJournal)
+//@   requires [C09:ast_ranges] resolved != nil ==> (forall p string :: has(resolved.Files, p) ==> JRefOK(resolved.Files[p]) && JComOK(resolved.Files[p])) && (resolved.Primary != nil ==> JRefOK(resolved.Primary) && JComOK(resolved.Primary))
+//@   requires [C09:ast_ranges_current] currentJournal != nil ==> JRefOK(currentJournal) && JComOK(currentJournal)
+//@   requires [C09:target_named] target.context == DefContextCommodity ==> target.name != ""
 //@   requires [C09:tree_labelled] resolved != nil && resolved.Primary != nil && resolved.PrimaryPath == "" ==> srcPath(resolved) == currentPath
 
 //@ func (*Server).References
